@@ -68,17 +68,14 @@ class ParsedAnsiControlSequenceString:
                 # This is the start of a Control Sequence Introducer command
                 i += len(ansi_control_sequence_introducer)
                 current_seq = ''
-                # An escape character is neither a parameter nor a terminator: it aborts this sequence (which is then
-                # unterminated) and is not consumed, since another sequence may start with it
-                while (
-                    i < len(s)
-                    and s[i] != '\x1b'
-                    and (ord(s[i]) < ansi_term_ord_range[0] or ord(s[i]) > ansi_term_ord_range[1])
-                ):
+                # Only parameter and intermediate bytes (0x20-0x3F) belong to a sequence. Any other character that is
+                # not a terminator - an escape character, a newline or other control character, non-ASCII text - aborts
+                # this sequence (which is then unterminated) and is not consumed: it is text, or starts a new sequence
+                while i < len(s) and 0x20 <= ord(s[i]) <= 0x3F:
                     current_seq += s[i]
                     i += 1
                 terminator = ''
-                if i < len(s) and s[i] != '\x1b':
+                if i < len(s) and ansi_term_ord_range[0] <= ord(s[i]) <= ansi_term_ord_range[1]:
                     terminator = s[i]
                     i += 1
                 if (terminator or allow_empty_terminator) and (acceptable_terminators is None or terminator in acceptable_terminators):
